@@ -220,12 +220,17 @@ func TestC07(t *testing.T) {
 				if rapid.IntRange(0, 4).Draw(rt, "forOther") == 0 {
 					forAddr = drawOwner(rt).Bech
 				}
-				w.buyStorage(o, forAddr, rapid.SampledFrom([]int64{30, 30, 60, 365}).Draw(rt, "days"),
-					rapid.SampledFrom([]int64{999_999_999, 1_000_000_000, 1_000_000_000, 2_000_000_000, 5_000_000_000}).Draw(rt, "bytes"), "")
+				bytes := rapid.SampledFrom([]int64{999_999_999, 1_000_000_000, 1_000_000_000, 1_500_000_000, 1_999_999_999, 2_000_000_000, 2_900_000_000, 5_000_000_000}).Draw(rt, "bytes")
+				if r := w.buyStorage(o, forAddr, rapid.SampledFrom([]int64{30, 30, 60, 365}).Draw(rt, "days"), bytes, ""); r.OK() {
+					// the space purchased is what the plan must offer
+					if pi, found := w.c.App.StorageKeeper.GetStoragePaymentInfo(w.f.Ctx, forAddr); !found || pi.SpaceAvailable != bytes {
+						fail("C07/plan-size", fmt.Sprintf("bought %d bytes for %s, plan offers %d (found=%v)", bytes, short(forAddr), pi.SpaceAvailable, found))
+					}
+				}
 			},
 			"post": func(rt *rapid.T) {
 				o := drawOwner(rt)
-				size := rapid.OneOf(rapid.Int64Range(1, 5000), rapid.SampledFrom([]int64{1, 1_000_000, 400_000_000, 999_999_999, 1_000_000_000, 1_000_000_001})).Draw(rt, "size")
+				size := rapid.OneOf(rapid.Int64Range(1, 5000), rapid.SampledFrom([]int64{1, 1_000_000, 300_000_000, 400_000_000, 500_000_000, 999_999_999, 1_000_000_000, 1_000_000_001})).Draw(rt, "size")
 				mp := rapid.Int64Range(1, 4).Draw(rt, "maxProofs")
 				exp := int64(0)
 				if rapid.IntRange(0, 4).Draw(rt, "payOnce") == 0 {
